@@ -37,7 +37,8 @@ SUBS = [SUB_OK, "2023-11-14T22:13:20", "12023-11-14T22-13-20", "2023-11-14T22-13
 FILES = ["rf@%d.000.h5" % T, "x@%d.000.h5" % T, "md@%d.h5" % T, "tmp.rf@%d.000.h5" % T, "tmp.md@%d.h5" % T,
          "rf@%d.00.h5" % T, "rf@%d.000.hdf5" % T, "rf@.h5", "rf%d.000.h5" % T, "metadata@%d.h5" % T,
          "rf@%d.0000.h5" % T, "md@%d.h5x" % T, "a@b@%d.000.h5" % T,
-         "rf@%d.250.h5" % T]  # a file of a sub-second cadence (time T + 250 ms)
+         "rf@%d.250.h5" % T,  # a file of a sub-second cadence (time T + 250 ms)
+         "rf@%s.000.h5" % "".join(chr(0xFF10 + int(c)) for c in str(T)), "md@%s.h5" % "".join(chr(0x0660 + int(c)) for c in str(T))]  # non-ASCII digits
 CHFILES = ["drf_properties.h5", "dmd_properties.h5", "metadata.h5", "tmp.drf_properties.h5", "rf@%d.000.h5" % T, "md@%d.h5" % T]
 
 
